@@ -159,6 +159,19 @@ func (st *State) exec(fr *Frame, in ssa.Instruction) bool {
 		} else {
 			p = &Ptr{Kind: PObj, Root: r, RootT: et, T: et}
 			st.storePtr(p, e.zero(et), x.Pos())
+			if x.Comment != "" && x.Comment != "complit" && x.Comment != "varargs" && x.Comment != "slicelit" && !strings.HasPrefix(x.Comment, "new") {
+				// the cell of a named local whose address is taken (captured by a closure): in contracts the name
+				// denotes the current content of the cell
+				if fr.specAddrs == nil {
+					fr.specAddrs = map[string]*Ptr{}
+				}
+				if fr.cellVars == nil {
+					fr.cellVars = map[string]bool{}
+				}
+				fr.specAddrs[x.Comment] = p
+				fr.cellVars[x.Comment] = true
+				delete(fr.specVars, x.Comment)
+			}
 		}
 		fr.env[x] = Val{T: x.Type(), C: []string{r}, P: p}
 	case *ssa.Phi:
